@@ -2,7 +2,6 @@ package main
 
 import (
 	"fmt"
-	"math"
 	"os"
 	"sort"
 	"strconv"
@@ -127,9 +126,13 @@ func c20Mode(o *cli.Opts, run *evid.Run, bin, mode, variant string) {
 	var mu sync.Mutex
 	var ops []clientOp
 	var scrapes []scrape
+	liveTally := map[string]int{} // responses received so far, by (method, code): exact at quiescent points
 	record := func(op clientOp) {
 		mu.Lock()
 		ops = append(ops, op)
+		if op.err == "" {
+			liveTally[strings.ToLower(op.method)+"/"+fmt.Sprint(op.status)]++
+		}
 		mu.Unlock()
 	}
 	// scraper throughout
@@ -252,6 +255,7 @@ func c20Mode(o *cli.Opts, run *evid.Run, bin, mode, variant string) {
 	// bursts of cheap requests that finish within microseconds of one another, each followed by a quiescent scrape:
 	// with nothing outstanding the in-flight gauge must read 0 (a gauge published out of order stays stuck until
 	// the next request overwrites it, so it has to be looked at between bursts, not only at the end)
+	burstsFrom := now() // everything before this moment goes to porcupine; the bursts are decided by exact counts at quiescent points
 	for b := 0; b < o.Pick(250, 1500); b++ {
 		bkey := fmt.Sprintf("%s/burst/%d", key, b)
 		if liveness.hung() && run.Violations() > 0 {
@@ -289,15 +293,36 @@ func c20Mode(o *cli.Opts, run *evid.Run, bin, mode, variant string) {
 		// every client has its complete response: quiescent. A reading that is still settling is re-read; only a
 		// gauge that STAYS away from zero is reported.
 		var sc scrape
+		mu.Lock()
+		want := map[string]int{}
+		for k, v := range liveTally {
+			want[k] = v
+		}
+		mu.Unlock()
+		sameTotals := func(got map[string]int) string {
+			for k, v := range want {
+				if got[k] != v {
+					return fmt.Sprintf("%s: %d responses received, metrics say %d", k, v, got[k])
+				}
+			}
+			for k, v := range got {
+				if want[k] != v {
+					return fmt.Sprintf("%s: %d responses received, metrics say %d", k, want[k], v)
+				}
+			}
+			return ""
+		}
 		for try := 0; try < 6; try++ {
 			sc = scrapeMetrics(srv.MetricsAddr)
-			if sc.err == nil && sc.gauge == 0 {
+			if sc.err == nil && sc.gauge == 0 && sameTotals(sc.totals) == "" {
 				break
 			}
 			time.Sleep(150 * time.Millisecond)
 		}
 		if sc.err != nil {
 			run.Violate(bkey+"/scrape", "the metrics endpoint does not answer between bursts: "+sc.err.Error(), nil)
+		} else if d := sameTotals(sc.totals); d != "" {
+			run.Violate(bkey+"/conservation", fmt.Sprintf("with nothing outstanding after burst %d the request totals differ from the responses received: %s", b, d), map[string]any{"burst": b, "size": n})
 		} else if sc.gauge != 0 {
 			run.Violate(bkey+"/gauge", fmt.Sprintf("in-flight gauge stays at %d after a burst of %d requests has been answered completely and nothing is outstanding", sc.gauge, n), map[string]any{"burst": b, "size": n})
 		}
@@ -425,40 +450,38 @@ func c20Mode(o *cli.Opts, run *evid.Run, bin, mode, variant string) {
 	if v, err := strconv.Atoi(os.Getenv("VERIF_PORCUPINE_CAP")); err == nil && v > 0 {
 		porcupineCap = v // debug knob: exercise the cut on a short history
 	}
-	cutT := int64(math.MaxInt64)
-	if len(ops) > porcupineCap {
+	cutT := int64(0)
+	{
 		type iv struct {
 			t int64
 			d int
 		}
 		var evs2 []iv
+		isOpRet := map[int64]int{}
 		for _, op := range ops {
 			evs2 = append(evs2, iv{op.call, 1}, iv{op.ret, -1})
+			isOpRet[op.ret]++
 		}
 		for _, sc := range scrapes {
 			evs2 = append(evs2, iv{sc.call, 1}, iv{sc.ret, -1})
 		}
 		sort.Slice(evs2, func(i, j int) bool { return evs2[i].t < evs2[j].t || (evs2[i].t == evs2[j].t && evs2[i].d > evs2[j].d) })
-		inflight, doneOps, best := 0, 0, int64(0)
-		isOpRet := map[int64]int{}
-		for _, op := range ops {
-			isOpRet[op.ret]++
-		}
+		inflight, doneOps := 0, 0
 		for _, e := range evs2 {
 			inflight += e.d
 			if e.d < 0 && isOpRet[e.t] > 0 {
 				isOpRet[e.t]--
 				doneOps++
 			}
-			if inflight == 0 && doneOps <= porcupineCap {
-				best = e.t
+			// the last quiescent moment before the bursts begin
+			if inflight == 0 && doneOps <= porcupineCap && e.t <= burstsFrom {
+				cutT = e.t
 			}
 		}
-		if best == 0 {
-			run.Inconclusive(key + ": no quiescent point within the first operations of the history; porcupine not run")
+		if cutT == 0 {
+			run.Inconclusive(key + ": no quiescent point before the burst phase; porcupine not run")
 			return
 		}
-		cutT = best
 		run.Add("porcupine_histories_cut_at_quiescent_point", 1)
 	}
 	var history []porcupine.Operation
